@@ -51,6 +51,7 @@ except KeyError:
 contract("C11.get_tag_units_portion", file=T, func="HedTag._get_tag_units_portion",
          params={"extension_text": "Str", "tag_unit_classes": "Map[Str,UnitClassEntry2]"},
          returns="Tuple[Opt[Str],Opt[Str],Opt[UnitEntry2]]", enc="native",
+         also=["C01"],        # C01 "bad unit or value" is decided on the parts this split hands out (round-11 change C01_r11)
          ensures={
              "C11.split.all_or_nothing": "(result[0] is None) == (result[2] is None) and (result[1] is None) == (result[2] is None)",
              "C11.split.parts_of_the_text": "implies(result[2] is not None,"
